@@ -373,87 +373,87 @@ func c04(r *Report) {
 func tunnelEOSRule(r *Report, hcr *ssa.Function, cops []tunnelCopier) {
 	w := r.W
 	g := G(hcr)
-		wake := map[string]bool{"(net.Conn).Close": true, "(*net.TCPConn).CloseWrite": true, "(net.Conn).SetReadDeadline": true, "(net.Conn).SetDeadline": true, "(*crypto/tls.Conn).CloseWrite": true}
-		found := false
+	wake := map[string]bool{"(net.Conn).Close": true, "(*net.TCPConn).CloseWrite": true, "(net.Conn).SetReadDeadline": true, "(net.Conn).SetDeadline": true, "(*crypto/tls.Conn).CloseWrite": true}
+	found := false
+	for _, c := range cops {
+		gf := G(c.Fn)
+		after := gf.Reach([]ssa.Instruction{c.Copy}, false, nil)
+		for i := range after {
+			if cc, ok := i.(*ssa.Call); ok && (wake[calleeName(cc)] || calleeName(cc) == "CloseWrite") {
+				found = true
+			}
+			// interface assertion to a CloseWrite-capable type followed by invoke
+			if cc, ok := i.(*ssa.Call); ok && cc.Call.IsInvoke() && (cc.Call.Method.Name() == "CloseWrite" || cc.Call.Method.Name() == "Close" || cc.Call.Method.Name() == "SetReadDeadline" || cc.Call.Method.Name() == "SetDeadline") {
+				found = true
+			}
+		}
+	}
+	// or between the first and the last receive in the handler
+	var recvs []ssa.Instruction
+	for _, in := range instrs(hcr) {
+		if u, ok := in.(*ssa.UnOp); ok && u.Op == token.ARROW {
+			recvs = append(recvs, u)
+		}
+	}
+	if len(recvs) >= 2 {
+		between := g.Reach([]ssa.Instruction{recvs[0]}, false, func(i ssa.Instruction) bool { return i == recvs[len(recvs)-1] })
+		for i := range between {
+			if cc, ok := i.(*ssa.Call); ok && (wake[calleeName(cc)] || (cc.Call.IsInvoke() && (cc.Call.Method.Name() == "CloseWrite" || cc.Call.Method.Name() == "Close" || cc.Call.Method.Name() == "SetDeadline" || cc.Call.Method.Name() == "SetReadDeadline"))) {
+				found = true
+			}
+		}
+	}
+	// and it does so however the copy ended (a read error such as a reset as well as a clean EOF)
+	if found {
 		for _, c := range cops {
 			gf := G(c.Fn)
-			after := gf.Reach([]ssa.Instruction{c.Copy}, false, nil)
-			for i := range after {
-				if cc, ok := i.(*ssa.Call); ok && (wake[calleeName(cc)] || calleeName(cc) == "CloseWrite") {
-					found = true
+			isWake := func(i ssa.Instruction) bool {
+				cc, ok := i.(*ssa.Call)
+				if !ok {
+					return false
 				}
-				// interface assertion to a CloseWrite-capable type followed by invoke
-				if cc, ok := i.(*ssa.Call); ok && cc.Call.IsInvoke() && (cc.Call.Method.Name() == "CloseWrite" || cc.Call.Method.Name() == "Close" || cc.Call.Method.Name() == "SetReadDeadline" || cc.Call.Method.Name() == "SetDeadline") {
-					found = true
-				}
-			}
-		}
-		// or between the first and the last receive in the handler
-		var recvs []ssa.Instruction
-		for _, in := range instrs(hcr) {
-			if u, ok := in.(*ssa.UnOp); ok && u.Op == token.ARROW {
-				recvs = append(recvs, u)
-			}
-		}
-		if len(recvs) >= 2 {
-			between := g.Reach([]ssa.Instruction{recvs[0]}, false, func(i ssa.Instruction) bool { return i == recvs[len(recvs)-1] })
-			for i := range between {
-				if cc, ok := i.(*ssa.Call); ok && (wake[calleeName(cc)] || (cc.Call.IsInvoke() && (cc.Call.Method.Name() == "CloseWrite" || cc.Call.Method.Name() == "Close" || cc.Call.Method.Name() == "SetDeadline" || cc.Call.Method.Name() == "SetReadDeadline"))) {
-					found = true
-				}
-			}
-		}
-		// and it does so however the copy ended (a read error such as a reset as well as a clean EOF)
-		if found {
-			for _, c := range cops {
-				gf := G(c.Fn)
-				isWake := func(i ssa.Instruction) bool {
-					cc, ok := i.(*ssa.Call)
-					if !ok {
-						return false
-					}
-					if wake[calleeName(cc)] {
-						return true
-					}
-					return cc.Call.IsInvoke() && (cc.Call.Method.Name() == "CloseWrite" || cc.Call.Method.Name() == "Close" || cc.Call.Method.Name() == "SetDeadline" || cc.Call.Method.Name() == "SetReadDeadline")
-				}
-				// an assertion of the destination to an interface that every destination's static
-				// type implements cannot fail: its not-ok edge is infeasible
-				skip := func(b *ssa.BasicBlock, k int) bool {
-					if k != 1 || len(b.Instrs) == 0 {
-						return false
-					}
-					iff, ok := b.Instrs[len(b.Instrs)-1].(*ssa.If)
-					if !ok {
-						return false
-					}
-					ex, ok := iff.Cond.(*ssa.Extract)
-					if !ok || ex.Index != 1 {
-						return false
-					}
-					ta, ok := ex.Tuple.(*ssa.TypeAssert)
-					if !ok {
-						return false
-					}
-					iface, ok := ta.AssertedType.Underlying().(*types.Interface)
-					if !ok {
-						return false
-					}
-					for _, cc := range cops {
-						if cc.Dst == nil || !types.Implements(unwrapIface(cc.Dst).Type(), iface) {
-							return false
-						}
-					}
+				if wake[calleeName(cc)] {
 					return true
 				}
-				if p := gf.PathToE([]ssa.Instruction{c.Copy}, false, isWake, isReturn, skip); p != nil {
-					found = false
-					r.Note("C04.R5: a path from io.Copy to the copier's return skips the half-close: %v", witness(w, p))
-				}
-				break
+				return cc.Call.IsInvoke() && (cc.Call.Method.Name() == "CloseWrite" || cc.Call.Method.Name() == "Close" || cc.Call.Method.Name() == "SetDeadline" || cc.Call.Method.Name() == "SetReadDeadline")
 			}
+			// an assertion of the destination to an interface that every destination's static
+			// type implements cannot fail: its not-ok edge is infeasible
+			skip := func(b *ssa.BasicBlock, k int) bool {
+				if k != 1 || len(b.Instrs) == 0 {
+					return false
+				}
+				iff, ok := b.Instrs[len(b.Instrs)-1].(*ssa.If)
+				if !ok {
+					return false
+				}
+				ex, ok := iff.Cond.(*ssa.Extract)
+				if !ok || ex.Index != 1 {
+					return false
+				}
+				ta, ok := ex.Tuple.(*ssa.TypeAssert)
+				if !ok {
+					return false
+				}
+				iface, ok := ta.AssertedType.Underlying().(*types.Interface)
+				if !ok {
+					return false
+				}
+				for _, cc := range cops {
+					if cc.Dst == nil || !types.Implements(unwrapIface(cc.Dst).Type(), iface) {
+						return false
+					}
+				}
+				return true
+			}
+			if p := gf.PathToE([]ssa.Instruction{c.Copy}, false, isWake, isReturn, skip); p != nil {
+				found = false
+				r.Note("C04.R5: a path from io.Copy to the copier's return skips the half-close: %v", witness(w, p))
+			}
+			break
 		}
-		r.Decide("path", "(*M.Proxy).handleConnectRequest: a finished copier wakes the opposite direction", found, "a close / half-close / deadline call follows the end of a copy before the join completes", "nothing between the end of one copy and the join can end the other copy: a half-closed tunnel stalls until the idle deadline", hcr.Pos())
+	}
+	r.Decide("path", "(*M.Proxy).handleConnectRequest: a finished copier wakes the opposite direction", found, "a close / half-close / deadline call follows the end of a copy before the join completes", "nothing between the end of one copy and the join can end the other copy: a half-closed tunnel stalls until the idle deadline", hcr.Pos())
 }
 
 func ordinalDyn(f *ssa.Function, c *ssa.Call) int {
